@@ -800,6 +800,18 @@ def note_ops(ph, tree, S):
     SAT_OPS[ph] = set(S.ops) if S is not None else set()
 
 
+def has_ptr(items):
+    """does the tree contain a pointer jump (`*` / `*{..}`)?"""
+    for it in items:
+        if it[0] in ("jump", "group") and it[1] == "*":
+            return True
+        if it[0] == "group" and has_ptr(it[2]):
+            return True
+        if it[0] == "alt" and any(has_ptr(b) for b in it[1]):
+            return True
+    return False
+
+
 def image_tree_cases(rng, tree, alpha, bits, nperturb, edge, nvar=4, styler=None):
     """all cases of one tree: exact layout, perturbations, truncations; file + view"""
     ptr = bits // 8
@@ -845,6 +857,21 @@ def image_tree_cases(rng, tree, alpha, bits, nperturb, edge, nvar=4, styler=None
         for c in rng.sample([cur + 1, cur - 1, end, end - 1, base, 0x3C, 0, U32, base - 1, pe.layout["size_of_image"]], 4):
             ops.append(sem_op("K", phs[0], c, sl))
     both(data, ops)
+    # a pointer operand (`*`) is translated against the base address OF THE VIEW: the same tree laid out with
+    # pointers relative to another base, read through `set_base_address(that base)` (matches), and the original
+    # layout through the rebased view / the rebased layout through the plain view (round-5 change C11-r5-3:
+    # `va_to_rva` took the base from the optional header)
+    if has_ptr(tree) and rng.random() < 0.6:
+        mask = (1 << bits) - 1
+        nb = (ib + rng.choice([8, 0x10, 0x1000, -0x1000, 0x10000, 1 << (bits - 1), -ib])) & mask
+        r2 = synth(rng, tree, size, base, ptr, lambda off: (nb + base + off) & mask, alpha)
+        if r2 is not None and r2[0] == tree:
+            _t2, S2, start2, data2 = r2
+            kb = "%s@0x%x" % (kv, nb)
+            _fl, vl = image_pair(rng, pe, data2, vsmode)
+            cases.append([vl, sem_op(kb, phs[0], base + start2, sl), sem_op(kv, phs[0], base + start2, sl)])
+            _fl, vl = image_pair(rng, pe, data, vsmode)
+            cases.append([vl, sem_op(kb, phs[0], cur, sl)])
     # single byte perturbations
     for d in perturbations(rng, S, data, nperturb):
         both(d, [sem_op("K", phs[-1], cur, ns) for ns in nsaves(rng, sl, False)])
